@@ -160,3 +160,115 @@ def run_witnesses(ctx, names):
             ctx.violation("correspondence", "model and implementation differ on the witness history %s (impl %s, model %s)" % (n, ki, km),
                           {"input": "asm " + scripts[n], "witness": n})
     return res
+
+
+# ---------------------------------------------------------------------------------------------
+# Instances of the scenario THEOREMS (coq/Properties/C01.v, C02.v, C08.v): random values for the universally quantified
+# contents and times that satisfy the hypotheses, the history run on the implementation, and the outcome compared with what
+# the theorem states.  This ties the theorem STATEMENTS (not only the model) to the code.
+def _polls(rng, lo, hi, k):
+    """k distinct poll times in [lo, hi), sorted"""
+    if hi <= lo:
+        return []
+    return sorted(set(rng.range(lo, hi - 1) for _ in range(k)))
+
+
+def theorem_instances(rng, n):
+    out = []
+    for j in range(n):
+        H = samegen.gen_header(rng, nloc=rng.choice([1, 2, 5, 13, 31]))
+        kind = ["two_of_three", "two_only", "trailer", "clean", "no_gap", "hold"][j % 6]
+        t1 = rng.range(100, 100000)
+        mk = lambda toks: ",".join(toks)
+        if kind == "two_of_three":
+            p = rng.below(3)
+            X = rng.choice([rng.bytes(rng.range(1, 300)), samegen.flip_bits(rng, H, rng.range(1, 40)), samegen.gen_header(rng), b"NNNN", H[: rng.range(1, len(H))]])
+            bursts = [H, H]; bursts.insert(p, X)
+            t2 = t1 + rng.range(1, 2600); t3 = min(t2 + rng.range(1, 2600), t1 + WINDOW - 1)
+            p1 = _polls(rng, t1 + 1, t2, 20); p2 = _polls(rng, t2 + 1, min(t3, t2 + HOLD), 20)
+            p3 = _polls(rng, t3 + 1, t3 + HOLD, 10) + _polls(rng, t3 + HOLD, t3 + 3 * HOLD, 6) + [t3 + 20000]
+            toks = ["a%d:%s" % (t1, hx(bursts[0]))] + ["i%d" % t for t in p1] + ["a%d:%s" % (t2, hx(bursts[1]))] + ["i%d" % t for t in p2] \
+                + ["a%d:%s" % (t3, hx(bursts[2]))] + ["i%d" % t for t in p3]
+            tf = min(t for t in p3 if t >= t3 + HOLD)
+            out.append(("C02_header_two_of_three_any_third", mk(toks), {"som": [(tf, H)]}))
+        elif kind == "two_only":
+            t2 = min(t1 + rng.range(1, 5600), t1 + WINDOW - 1)
+            p1 = _polls(rng, t1 + 1, t2, 30)
+            p2 = _polls(rng, t2 + 1, t2 + 3 * HOLD, 12) + [t2 + 9000]
+            toks = ["a%d:%s" % (t1, hx(H))] + ["i%d" % t for t in p1] + ["a%d:%s" % (t2, hx(H))] + ["i%d" % t for t in p2]
+            tf = min(t for t in p2 if t >= t2 + HOLD)
+            out.append(("C02_header_two_bursts_only", mk(toks), {"som": [(tf, H)]}))
+        elif kind == "trailer":
+            ns = [b"NN" + bytes(rng.choice(samegen.ALLOWED) for _ in range(rng.range(0, 12))) for _ in range(3)]
+            t2 = t1 + rng.range(1, 2500); t3 = min(t2 + rng.range(1, 2500), t1 + WINDOW - 1)
+            p1 = _polls(rng, t1 + 1, t2, 15); p2 = _polls(rng, t2 + 1, t3, 15); p3 = _polls(rng, t3 + 1, t3 + 12000, 15)
+            toks = ["a%d:%s" % (t1, hx(ns[0]))] + ["i%d" % t for t in p1] + ["a%d:%s" % (t2, hx(ns[1]))] + ["i%d" % t for t in p2] \
+                + ["a%d:%s" % (t3, hx(ns[2]))] + ["i%d" % t for t in p3]
+            out.append(("C02_trailer_exactly_one_eom", mk(toks), {"all": [(t1, "eom")]}))
+        elif kind in ("clean", "no_gap"):
+            ns = [b"NNNN" + bytes(rng.choice(samegen.ALLOWED) for _ in range(rng.range(0, 6))) for _ in range(3)]
+            t2 = t1 + rng.range(400, 1200); t3 = t2 + rng.range(400, 1200)
+            p1 = _polls(rng, t1 + 1, t2, 10); p2 = _polls(rng, t2 + 1, min(t3, t2 + HOLD), 10)
+            if kind == "clean":
+                pa = _polls(rng, t3 + 1, t3 + HOLD, 8)
+                tf = t3 + HOLD + rng.range(0, 40)
+                u1 = tf + rng.range(0, 2000)
+                pb = _polls(rng, tf + 1, u1, 6)
+            else:
+                pa = _polls(rng, t3 + 1, t3 + HOLD, 8)
+                u1 = t3 + HOLD + rng.range(0, 300); tf = None; pb = []
+            u2 = u1 + rng.range(300, 1000); u3 = u2 + rng.range(300, 1000)
+            if u3 >= t2 + WINDOW:
+                continue
+            p4 = _polls(rng, u1 + 1, u2, 6); p5 = _polls(rng, u2 + 1, u3, 6); p6 = _polls(rng, u3 + 1, u3 + 9000, 8)
+            toks = ["a%d:%s" % (t1, hx(H))] + ["i%d" % t for t in p1] + ["a%d:%s" % (t2, hx(H))] + ["i%d" % t for t in p2] \
+                + ["a%d:%s" % (t3, hx(H))] + ["i%d" % t for t in pa] + (["i%d" % tf] if tf else []) + ["i%d" % t for t in pb] \
+                + ["a%d:%s" % (u1, hx(ns[0]))] + ["i%d" % t for t in p4] + ["a%d:%s" % (u2, hx(ns[1]))] + ["i%d" % t for t in p5] \
+                + ["a%d:%s" % (u3, hx(ns[2]))] + ["i%d" % t for t in p6]
+            exp = [(tf if tf else u1, H), (u2, "eom")]
+            out.append(("C01_clean_transmission_exact" if kind == "clean" else "C02_no_voice_gap_transmission", mk(toks), {"all": exp}))
+        else:
+            # C08: after ANY history, the poll 682 symbols after the last burst empties the slot: no later poll reports anything
+            toks, t, last = [], t1, t1
+            for _ in range(rng.range(1, 7)):
+                t += rng.range(1, 1500)
+                if rng.chance(1, 2):
+                    b = rng.choice([H, H, b"NNNN", rng.bytes(rng.range(1, 60)), samegen.flip_bits(rng, H, 3)])
+                    toks.append("a%d:%s" % (t, hx(b))); last = t
+                else:
+                    toks.append("i%d" % t)
+            rel = max(t, last + HOLD)
+            toks.append("i%d" % rel)
+            later = _polls(rng, rel + 1, rel + 9000, 8)
+            toks += ["i%d" % x for x in later]
+            out.append(("C08_released_by_first_poll_after_hold", mk(toks), {"quiet_after": rel}))
+    return out
+
+
+def check_instances(ctx, insts):
+    """run on implementation and model; compare with the theorem's statement; returns number of confirmed instances"""
+    model, impl = run_scripts([s for _, s, _ in insts])
+    ok, names = 0, {}
+    for (name, script, exp), mo, im in zip(insts, model, impl):
+        names[name] = names.get(name, 0) + 1
+        rep = reports(script, im)
+        got_all = [(t, "eom" if r == "eom" else ("err" if r.startswith("ERR") else rep_text(r))) for t, r in rep]
+        bad = None
+        if "som" in exp:
+            got = [(t, x) for t, x in got_all if isinstance(x, bytes)]
+            if got != exp["som"]:
+                bad = "StartOfMessage reports %s, theorem %s states %s" % ([(t, x[:12]) for t, x in got], name, [(t, x[:12]) for t, x in exp["som"]])
+        if "all" in exp and got_all != exp["all"]:
+            bad = "messages %s, theorem %s states %s" % ([(t, x if isinstance(x, str) else x[:12]) for t, x in got_all], name,
+                                                         [(t, x if isinstance(x, str) else x[:12]) for t, x in exp["all"]])
+        if "quiet_after" in exp and any(t > exp["quiet_after"] for t, _ in got_all):
+            bad = "a message was reported after the poll at last burst + 682 (%d), contradicting %s" % (exp["quiet_after"], name)
+        if mo != im:
+            ctx.violation("correspondence", "assembler model and implementation differ on an instance of theorem %s" % name,
+                          {"input": "asm " + script, "model": mo[-800:], "impl": im[-800:]})
+        if bad:
+            ctx.violation("property" if mo == im else "correspondence", "instance of a proved scenario theorem fails on the implementation: " + bad,
+                          {"input": "asm " + script, "theorem": name})
+        elif mo == im:
+            ok += 1
+    return ok, names
